@@ -16,9 +16,13 @@ pub fn payment_hash() -> sha256::Hash {
     sha256::Hash::hash(&preimage())
 }
 
-fn sendpay_entry(id: u64, status: &str) -> Value {
+fn sendpay_entry(p: &Value) -> Value {
+    let id = p["id"].as_u64().unwrap();
+    let status = p["status"].as_str().unwrap();
+    let groupid = p["groupid"].as_u64().unwrap_or(1);
+    let partid = p["partid"].as_u64().unwrap_or(id + 1);
     let mut v = json!({
-        "id": id, "groupid": 1, "partid": id + 1, "payment_hash": payment_hash().to_string(),
+        "id": id, "groupid": groupid, "partid": partid, "payment_hash": payment_hash().to_string(),
         "status": status, "created_at": 0, "amount_sent_msat": 0
     });
     if status == "complete" {
@@ -37,13 +41,15 @@ pub fn answer_for(step: &Value) -> Value {
     match step["method"].as_str().unwrap_or("") {
         "listsendpays" => {
             let parts: Vec<Value> = step["parts"].as_array().cloned().unwrap_or_default().iter()
-                .map(|p| sendpay_entry(p["id"].as_u64().unwrap(), p["status"].as_str().unwrap())).collect();
+                .map(sendpay_entry).collect();
             json!({"result": {"payments": parts}})
         }
         "waitsendpay" => {
             if step["complete"].as_bool().unwrap_or(false) {
                 let id = step["part"].as_u64().unwrap_or(0);
-                json!({"result": {"id": id, "groupid": 1, "partid": id + 1, "payment_hash": payment_hash().to_string(),
+                let groupid = step["groupid"].as_u64().unwrap_or(1);
+                let partid = step["partid"].as_u64().unwrap_or(id + 1);
+                json!({"result": {"id": id, "groupid": groupid, "partid": partid, "payment_hash": payment_hash().to_string(),
                     "status": "complete", "created_at": 0, "amount_sent_msat": 0, "payment_preimage": hex::encode(preimage())}})
             } else if step["code"].is_string() {
                 json!({"drop": true})
@@ -119,7 +125,12 @@ pub fn run(input: &Value) -> Value {
                 Some(m) => m.to_string(),
                 None => continue,
             };
-            let want = if method == "listsendpays" && step["status"].is_string() { json!({"status": step["status"]}) } else { Value::Null };
+            let want = if method == "listsendpays" && step["status"].is_string() {
+                json!({"status": step["status"]})
+            } else if method == "waitsendpay" && step["partid"].is_u64() {
+                // several waits may be outstanding: answer the one for this part
+                json!({"partid": step["partid"], "groupid": step["groupid"]})
+            } else { Value::Null };
             match wait_for_call_where(&node, &method, &want, 400).await {
                 Some(c) => node.answer(c, answer_for(&step)).await,
                 None => notes.push(format!("scripted answer for {} was never requested", method)),
